@@ -406,6 +406,23 @@ func (vlog *valueLog) write(reqs []*request) error {
 			touched[bucket] = struct{}{}
 		}
 	}
+	// Recovery removes segments above the highest one the manifest knows as
+	// orphans. Record every segment this write rotated into before the caller
+	// appends WAL records that point into it.
+	if vlog.db != nil && vlog.db.lsm != nil {
+		for bucket := range touched {
+			mgr, err := vlog.managerFor(bucket)
+			if err != nil {
+				return fail(err, "record rotated value log segment")
+			}
+			for fid := heads[bucket].Fid + 1; fid <= mgr.Head().Fid; fid++ {
+				meta := manifest.ValueLogMeta{Bucket: bucket, FileID: fid, Valid: true}
+				if err := vlog.db.lsm.LogValueLogUpdate(&meta); err != nil {
+					return fail(err, "record rotated value log segment")
+				}
+			}
+		}
+	}
 	if wrote && vlog.db != nil && vlog.db.opt.SyncWrites {
 		byBucket := make(map[uint32]map[uint32]struct{})
 		for _, req := range reqs {
